@@ -55,6 +55,10 @@ GLOBAL_SETTERS = {
     "numpy.seterr", "numpy.set_printoptions", "numpy.seterrcall", "warnings.simplefilter", "warnings.filterwarnings", "warnings.resetwarnings",
     "os.chdir", "os.umask", "os.putenv", "locale.setlocale", "sys.setrecursionlimit", "numpy.random.seed", "random.seed",
     "sys.settrace", "sys.setprofile", "decimal.setcontext", "signal.signal", "builtins.setattr@module",
+    # redirection of the interpreter's standard streams (a writer that prints to the redirected sys.stdout shares it
+    # with every other thread and with nested dumps)
+    "contextlib.redirect_stdout", "contextlib.redirect_stderr", "numpy.errstate", "numpy.printoptions", "os.environ.pop", "os.environ.clear", "os.unsetenv",
+    "tempfile.tempdir", "sys.setdefaultencoding", "importlib.reload",
 }
 POSITIVE = '''
 TABLE = {1: "a"}
